@@ -261,6 +261,12 @@ func canon(v reflect.Value, depth int) any {
 				continue
 			}
 			c := canon(v.Field(i), depth+1)
+			if fv := v.Field(i); UnionAltHook != nil && fv.Kind() == reflect.Interface && fv.Type().NumMethod() > 0 && !fv.IsNil() {
+				// a union attribute: name the alternative (design attribute name), not the Go type (union.go)
+				if alt := UnionAltHook(f.Name, fv.Elem().Type()); alt != "" {
+					c = map[string]any{"$union": alt, "$value": canon(fv.Elem(), depth+1)}
+				}
+			}
 			if c != nil {
 				o[spec.Norm(f.Name)] = c
 			}
